@@ -475,12 +475,16 @@ DoDonate(s, m) ==
   IF m.by \notin Users \/ m.n <= 0 THEN Fail(s, "vb")
   ELSE Commit(s, s, <<X(m.by, m.to, m.d, m.n)>>, <<>>)
 
+(* an empty fee (no coins) has no denomination: it is written [d |-> "dF", n |-> 0] *)
+NormFee(f) == IF f.n <= 0 THEN [d |-> "dF", n |-> 0] ELSE f
+NormParams(p) == [createFee |-> NormFee(p.createFee), bidFee |-> NormFee(p.bidFee), extPeriod |-> p.extPeriod]
+
 (* keeper/msg_update_params.go *)
 DoUpdateParams(s, m) ==
   IF m.auth # "gov" THEN Fail(s, "authority")
   ELSE IF ~m.valid THEN Fail(s, "params")
-  ELSE Commit(s, [s EXCEPT !.params = [createFee |-> m.createFee, bidFee |-> m.bidFee,
-                                       extPeriod |-> m.extPeriod]], <<>>, <<>>)
+  ELSE Commit(s, [s EXCEPT !.params = NormParams([createFee |-> m.createFee, bidFee |-> m.bidFee,
+                                                  extPeriod |-> m.extPeriod])], <<>>, <<>>)
 
 (* module/genesis.go: ExportGenesis ; wipe ; InitGenesis *)
 DoGenesis(s, m) ==
@@ -641,7 +645,7 @@ EventsOf(s, m, r) ==
          [] OTHER -> <<>>
 
 InitState(bal0, params0, switch0) ==
-  [now |-> 0, params |-> params0, aseq |-> 0, auctions |-> <<>>, allowed |-> <<>>,
+  [now |-> 0, params |-> NormParams(params0), aseq |-> 0, auctions |-> <<>>, allowed |-> <<>>,
    bids |-> <<>>, bseq |-> <<>>, vqs |-> <<>>, lastMatched |-> <<>>,
    bal |-> [x \in Accts |-> IF x \in Users THEN bal0[x] ELSE [d \in Denoms |-> 0]],
    fp |-> [d \in Denoms |-> 0],
